@@ -53,6 +53,8 @@ func FromTagged(v any) any {
 		return out
 	case "err":
 		return ErrValue{}
+	case "any":
+		return AnyValue{}
 	case "enc", "hash":
 		// uninterpreted texts of Builtins.tla: only their laws are fixed
 		b, _ := json.Marshal(m)
@@ -67,6 +69,10 @@ func FromTagged(v any) any {
 
 // ErrValue is the decoded form of the specification's Err.
 type ErrValue struct{}
+
+// AnyValue is the decoded form of the specification's Unspec: a result the properties
+// leave open (the checks then only demand that no panic escapes).
+type AnyValue struct{}
 
 // Opaque is an uninterpreted text of the specification (ENCODE / HASH result). A real
 // value matches it when it is a string of the right shape, and the same specification
@@ -319,6 +325,8 @@ func equal(got, want any, depth int) bool {
 	switch w := want.(type) {
 	case Opaque:
 		return w.matches(got)
+	case AnyValue:
+		return true
 	case nil:
 		return got == nil
 	case bool:
